@@ -26,6 +26,13 @@ deriving DecidableEq, Repr
 
 abbrev TRes (α : Type) := Except TErr α
 
+instance instDecEqTRes {α : Type} [DecidableEq α] : DecidableEq (TRes α) := fun a b =>
+  match a, b with
+  | .ok x, .ok y => if h : x = y then isTrue (by rw [h]) else isFalse (fun e => h (by injection e))
+  | .error x, .error y => if h : x = y then isTrue (by rw [h]) else isFalse (fun e => h (by injection e))
+  | .ok _, .error _ => isFalse (fun e => by cases e)
+  | .error _, .ok _ => isFalse (fun e => by cases e)
+
 /-- the class attributes of `useful.GeneralizedTime`/`UTCTime` and of their CER encoders -/
 structure Kind where
   yearsDigits : Nat
@@ -325,14 +332,19 @@ def readZone (k : Kind) (s : List Char) : Option (List Char × Option Int) :=
     else none
   else if isGT k then some (s, none) else none
 
+def notMark (c : Char) : Bool := c != '.' && c != ','
+
 /-- the fraction: text before the decimal mark and the fraction digits (`.` or `,`) -/
 def readFrac (k : Kind) (s : List Char) : Option (List Char × List Char) :=
   if '.' ∈ s ∨ ',' ∈ s then
     if ¬ isGT k then none else
-    let cut := s.span (fun c => c ≠ '.' ∧ c ≠ ',')
-    let f := cut.2.drop 1
-    if f ≠ [] ∧ allDig f then some (cut.1, f) else none
+    let f := (s.dropWhile notMark).drop 1
+    if f ≠ [] ∧ allDig f then some (s.takeWhile notMark, f) else none
   else some (s, [])
+
+/-- time of day `base + unit * 0.f` microseconds, in lowest decimal terms -/
+def todOf (base unit : Nat) (f : List Char) : Nat × Nat :=
+  normDec (base * 10 ^ f.length + unit * digitsVal 0 f) f.length
 
 /-- date and time-of-day fields; the fraction applies to the last stated unit -/
 def readMain (k : Kind) (m f : List Char) (off : Option Int) : Option Instant :=
@@ -352,7 +364,7 @@ def readMain (k : Kind) (m f : List Char) (off : Option Int) : Option Instant :=
   else
     let unit := if r.length = 10 then 1000000 else if r.length = 8 then 60000000 else 3600000000
     let base := (h * 3600 + mi * 60 + sec) * 1000000
-    let nd := normDec (base * 10 ^ f.length + unit * digitsVal 0 f) f.length
+    let nd := todOf base unit f
     some ⟨y, mo, d, nd.1, nd.2, off⟩
 
 /-- the instant a GeneralizedTime / UTCTime string denotes per X.680 §46 / §47; `none` = not in the grammar -/
